@@ -1,16 +1,21 @@
-#![allow(dead_code)]
+//! C04 hunt: "Story faults are reported as errors; the runtime never panics".
+//!
+//! One test per finding. Every test FAILS on the unchanged code because of the
+//! defect it is named after.
+//!
+//!   cargo test --offline -p conformance-tests --test hunt
+//!
+//! (the exploratory harness that found these lives in /tmp/hunt-gen/)
+
 use std::panic::{AssertUnwindSafe, catch_unwind};
 
 use bladeink::story::Story;
 use bladeink_compiler::Compiler;
 
-#[derive(Debug)]
-enum Outcome {
-    CompileError(String),
-    CompilePanic,
-    NewErr(String),
-    Played { text: String, errs: Vec<String> },
-    Panic(String),
+fn compile(ink: &str) -> String {
+    Compiler::new()
+        .compile(ink)
+        .expect("the compiler accepts this program")
 }
 
 fn panic_msg(e: Box<dyn std::any::Any + Send>) -> String {
@@ -19,290 +24,303 @@ fn panic_msg(e: Box<dyn std::any::Any + Send>) -> String {
     } else if let Some(s) = e.downcast_ref::<&str>() {
         s.to_string()
     } else {
-        "<?>".to_string()
+        "<non-string panic payload>".to_string()
     }
 }
 
-fn play(ink: &str, save_load: bool) -> Outcome {
-    let json = match catch_unwind(|| Compiler::new().compile(ink)) {
-        Ok(Ok(j)) => j,
-        Ok(Err(e)) => return Outcome::CompileError(format!("{e:?}")),
-        Err(_) => return Outcome::CompilePanic,
-    };
+/// Plays a story to the end (always the first choice, bounded number of
+/// steps) and returns the transcript and the first error, if any.
+fn play_to_end(story: &mut Story) -> (String, Option<String>) {
+    let mut text = String::new();
+    for _ in 0..200 {
+        if story.can_continue() {
+            match story.cont() {
+                Ok(t) => text.push_str(&t),
+                Err(e) => return (text, Some(e.to_string())),
+            }
+        } else if !story.get_current_choices().is_empty() {
+            if let Err(e) = story.choose_choice_index(0) {
+                return (text, Some(e.to_string()));
+            }
+        } else {
+            break;
+        }
+    }
+    (text, None)
+}
+
+/// Compiles and plays `ink`; a panic anywhere in the runtime is returned as Err.
+fn play_catching(ink: &str) -> Result<(String, Option<String>), String> {
+    let json = compile(ink);
+    catch_unwind(AssertUnwindSafe(|| {
+        let mut story = Story::new(&json).expect("story loads");
+        play_to_end(&mut story)
+    }))
+    .map_err(panic_msg)
+}
+
+// ---------------------------------------------------------------------------
+// 1. A tag produced by a function that is called inside a string (or inside
+//    the text of a choice) is pushed on the evaluation stack as a `Tag`
+//    object. If it ends up as an operand of a binary operation whose other
+//    operand is a list, `NativeFunctionCall::call_binary_list_operation`
+//    does `downcast::<Value>().unwrap()` on it.
+//    runtime/src/native_function_call.rs:255
+// ---------------------------------------------------------------------------
+#[test]
+fn tag_operand_in_list_operation_panics() {
+    let ink = r#"
+LIST L = a, b
+VAR s = ""
+~ s = "{(a) + f()}"
+{s}
+-> END
+=== function f()
+# sometag
+~ return (b)
+"#;
+    let r = play_catching(ink);
+    assert!(
+        r.is_ok(),
+        "runtime panicked instead of reporting an error: {}",
+        r.unwrap_err()
+    );
+}
+
+/// Same defect reached through the text of a choice.
+#[test]
+fn tag_operand_in_list_operation_panics_in_choice_text() {
+    let ink = r#"
+LIST L = a, b
+* [pick {(a) + f()}]
+- -> END
+=== function f()
+# sometag
+~ return (b)
+"#;
+    let r = play_catching(ink);
+    assert!(
+        r.is_ok(),
+        "runtime panicked instead of reporting an error: {}",
+        r.unwrap_err()
+    );
+}
+
+// ---------------------------------------------------------------------------
+// 2. `{(): yes|no}` (the empty list literal used as a condition; also
+//    `* {()} choice`). The compiler emits a function call with an empty
+//    target, {"f()": ""}; `Divert::get_target_pointer` unwraps the last
+//    component of the empty path.
+//    runtime/src/divert.rs:107
+// ---------------------------------------------------------------------------
+#[test]
+fn empty_list_literal_as_condition_panics() {
+    let ink = "{(): yes|no}\n-> END\n";
+    let r = play_catching(ink);
+    assert!(
+        r.is_ok(),
+        "runtime panicked instead of reporting an error: {}",
+        r.unwrap_err()
+    );
+}
+
+// ---------------------------------------------------------------------------
+// 3. A dotted name that does not lead to a container (`{k.0}`: the first
+//    piece of content of knot k, a string) is compiled to a read count
+//    {"CNT?": "k.0"}. `VariableReference::get_container_for_count` unwraps
+//    `SearchResult::container()`.
+//    runtime/src/variable_reference.rs:36 (called from control_logic.rs:690)
+// ---------------------------------------------------------------------------
+#[test]
+fn read_count_of_non_container_path_panics() {
+    let ink = "{k.0}\n-> END\n=== k\nhi\n-> DONE\n";
+    let r = play_catching(ink);
+    assert!(
+        r.is_ok(),
+        "runtime panicked instead of reporting an error: {}",
+        r.unwrap_err()
+    );
+}
+
+// ---------------------------------------------------------------------------
+// 4. A divert target value may carry an index (`-> k.2147483647` is accepted
+//    by the compiler as a value, and `choose_path_string("k.2147483647")`
+//    is accepted from the host). `increment_content_pointer` does
+//    `pointer.index += 1` on the i32 index: debug builds panic with
+//    "attempt to add with overflow", release builds wrap to i32::MIN, which
+//    `Pointer::resolve` treats as "the container itself", so the knot is
+//    played from its start. Any other index past the end of the knot
+//    (e.g. 2147483646) reports "ran out of content".
+//    runtime/src/story/progress.rs:589
+// ---------------------------------------------------------------------------
+#[test]
+fn divert_to_max_index_overflows_content_pointer() {
+    let program = |idx: &str| format!("VAR t = -> k.{idx}\n-> t\n=== k\nhi\n-> DONE\n");
+    let reference = play_catching(&program("2147483646"));
+    let r = play_catching(&program("2147483647"));
+    assert!(
+        r.is_ok(),
+        "runtime panicked instead of reporting an error: {}",
+        r.unwrap_err()
+    );
+    // Release builds: no panic, but not what every other out-of-range index does.
+    assert_eq!(r.unwrap(), reference.unwrap());
+}
+
+/// Same defect reached from the host through a path jump.
+#[test]
+fn path_jump_to_max_index_overflows_content_pointer() {
+    let json = compile("-> k\n=== k\nhi\n-> DONE\n");
     let r = catch_unwind(AssertUnwindSafe(|| {
-        let mut story = match Story::new(&json) {
-            Ok(s) => s,
-            Err(e) => return Outcome::NewErr(e.to_string()),
-        };
-        let mut text = String::new();
-        let mut errs = vec![];
-        let mut steps = 0;
-        loop {
-            steps += 1;
-            if steps > 200 {
-                break;
-            }
-            if story.can_continue() {
-                match story.cont() {
-                    Ok(t) => text.push_str(&t),
-                    Err(e) => {
-                        errs.push(e.to_string());
-                        break;
-                    }
-                }
-                if save_load {
-                    let s = story.save_state().unwrap();
-                    story.load_state(&s).unwrap();
-                }
-            } else {
-                let n = story.get_current_choices().len();
-                if n == 0 {
-                    break;
-                }
-                if let Err(e) = story.choose_choice_index(steps % n) {
-                    errs.push(e.to_string());
-                    break;
-                }
-            }
-        }
-        Outcome::Played { text, errs }
+        let mut story = Story::new(&json).unwrap();
+        story
+            .choose_path_string("k.2147483647", true, None)
+            .map_err(|e| e.to_string())?;
+        story.cont().map_err(|e| e.to_string())
     }));
-    match r {
-        Ok(o) => o,
-        Err(e) => Outcome::Panic(panic_msg(e)),
-    }
+    assert!(
+        r.is_ok(),
+        "runtime panicked: {}",
+        panic_msg(r.err().unwrap())
+    );
+    // every other index past the end gives an error, not the text of the knot
+    assert!(r.unwrap().is_err());
 }
 
+// ---------------------------------------------------------------------------
+// 5. After the story has stepped over a pointer whose index is past the end
+//    of its container (`-> t` with `VAR t = -> 0.99`; or the host call
+//    `choose_path_string("0.99")`), that pointer is remembered as the
+//    previous pointer of the thread. `Thread::write_json` does
+//    `previous_pointer.resolve().unwrap()`, so the next `save_state()` panics.
+//    runtime/src/callstack.rs:178
+// ---------------------------------------------------------------------------
 #[test]
-fn explore() {
-    let dir = std::env::var("HUNT_DIR").unwrap_or("/tmp/hunt-cases".to_string());
-    let mut entries: Vec<_> = std::fs::read_dir(&dir)
-        .unwrap()
-        .map(|e| e.unwrap().path())
-        .collect();
-    entries.sort();
-    for p in entries {
-        let ink = std::fs::read_to_string(&p).unwrap();
-        for sl in [false, true] {
-            let o = play(&ink, sl);
-            println!("=== {} save_load={sl}: {:?}", p.display(), o);
-        }
-    }
-}
-
-#[test]
-fn dump() {
-    let Ok(f) = std::env::var("HUNT_FILE") else { return };
-    let ink = std::fs::read_to_string(&f).unwrap();
-    println!("{}", Compiler::new().compile(&ink).unwrap());
-}
-
-use bladeink::value_type::ValueType;
-use rand::{RngExt, SeedableRng, rngs::StdRng};
-
-fn collect_inks(dir: &std::path::Path, out: &mut Vec<std::path::PathBuf>) {
-    for e in std::fs::read_dir(dir).unwrap() {
-        let p = e.unwrap().path();
-        if p.is_dir() {
-            collect_inks(&p, out);
-        } else if p.extension().is_some_and(|x| x == "ink") {
-            out.push(p);
-        }
-    }
-}
-
-fn names_in(ink: &str) -> (Vec<String>, Vec<String>) {
-    let mut paths = vec![];
-    let mut vars = vec![];
-    let mut knot = String::new();
-    for l in ink.lines() {
-        let t = l.trim();
-        if let Some(r) = t.strip_prefix("==") {
-            let r = r.trim_start_matches('=').trim();
-            let r = r.strip_prefix("function").unwrap_or(r).trim();
-            let n: String = r.chars().take_while(|c| c.is_alphanumeric() || *c == '_').collect();
-            if !n.is_empty() {
-                knot = n.clone();
-                paths.push(n);
-            }
-        } else if let Some(r) = t.strip_prefix("=") {
-            let n: String = r.trim().chars().take_while(|c| c.is_alphanumeric() || *c == '_').collect();
-            if !n.is_empty() && !knot.is_empty() {
-                paths.push(format!("{knot}.{n}"));
-            }
-        } else if let Some(r) = t.strip_prefix("VAR ") {
-            let n: String = r.trim().chars().take_while(|c| c.is_alphanumeric() || *c == '_').collect();
-            vars.push(n);
-        }
-    }
-    (paths, vars)
-}
-
-fn fuzz_one(json: &str, paths: &[String], vars: &[String], seed: u64, wild: bool) -> Result<(), (String, Vec<String>)> {
-    let mut trace: Vec<String> = vec![];
-    let tr = std::cell::RefCell::new(&mut trace);
+fn save_after_divert_past_end_of_container_panics() {
+    let ink = "VAR t = -> 0.99\nfirst\n-> t\n";
+    let json = compile(ink);
     let r = catch_unwind(AssertUnwindSafe(|| {
-        let mut rng = StdRng::seed_from_u64(seed);
-        let Ok(mut story) = Story::new(json) else { return };
-        let mut saves: Vec<String> = vec![];
-        let flows = ["default", "a", "b"];
-        for _ in 0..80 {
-            let op = rng.random_range(0..20);
-            let mut log = |s: String| { if std::env::var("HUNT_VERBOSE").is_ok() { println!("  op: {s}"); } tr.borrow_mut().push(s) };
-            match op {
-                0..=5 => {
-                    log("cont".into());
-                    if story.can_continue() {
-                        let _ = story.cont();
-                    }
-                }
-                6 | 7 => {
-                    let n = story.get_current_choices().len();
-                    let i = if n > 0 { rng.random_range(0..n + 1) } else { 0 };
-                    log(format!("choose {i}/{n}"));
-                    let _ = story.choose_choice_index(i);
-                }
-                8 => {
-                    log("save".into());
-                    if let Ok(s) = story.save_state() {
-                        saves.push(s);
-                    }
-                }
-                9 => {
-                    if !saves.is_empty() {
-                        let i = rng.random_range(0..saves.len());
-                        log(format!("load {i}"));
-                        let _ = story.load_state(&saves[i]);
-                    }
-                }
-                10 => {
-                    let f = flows[rng.random_range(0..3)];
-                    log(format!("switch_flow {f}"));
-                    let _ = story.switch_flow(f);
-                }
-                11 => {
-                    let f = flows[rng.random_range(0..3)];
-                    log(format!("remove_flow {f}"));
-                    let _ = story.remove_flow(f);
-                }
-                12 | 13 => {
-                    if !paths.is_empty() {
-                        let mut p = paths[rng.random_range(0..paths.len())].clone();
-                        if wild {
-                            match rng.random_range(0..4) {
-                                0 => p.push_str(".0"),
-                                1 => p.push_str(".7"),
-                                2 => p = format!("{}", rng.random_range(0..3)),
-                                _ => {}
-                            }
-                        }
-                        let reset = rng.random_bool(0.5);
-                        log(format!("choose_path_string {p} {reset}"));
-                        let _ = story.choose_path_string(&p, reset, None);
-                    }
-                }
-                14 => {
-                    if !paths.is_empty() {
-                        let p = &paths[rng.random_range(0..paths.len())];
-                        if !p.contains('.') {
-                            log(format!("evaluate_function {p}"));
-                            let mut out = String::new();
-                            let args = vec![ValueType::Int(1), ValueType::Int(2)];
-                            let a = if rng.random_bool(0.5) { Some(&args) } else { None };
-                            let _ = story.evaluate_function(p, a, &mut out);
-                        }
-                    }
-                }
-                15 => {
-                    log("reset_state".into());
-                    let _ = story.reset_state();
-                }
-                16 => {
-                    log("continue_async".into());
-                    if story.can_continue() {
-                        let _ = story.continue_async(0.0001);
-                    }
-                }
-                17 => {
-                    log("tags/text".into());
-                    let _ = story.get_current_tags();
-                    let _ = story.get_current_text();
-                    let _ = story.get_global_tags();
-                    let _ = story.get_current_path();
-                    if !paths.is_empty() {
-                        let p = &paths[rng.random_range(0..paths.len())];
-                        let _ = story.tags_for_content_at_path(p);
-                        let _ = story.get_visit_count_at_path_string(p);
-                    }
-                }
-                18 => {
-                    if !vars.is_empty() {
-                        let v = &vars[rng.random_range(0..vars.len())];
-                        log(format!("set_variable {v}"));
-                        let val = match rng.random_range(0..4) {
-                            0 => ValueType::Int(i32::MAX),
-                            1 => ValueType::Float(1.5),
-                            2 => ValueType::new::<&str>("str"),
-                            _ => ValueType::Bool(true),
-                        };
-                        let _ = story.set_variable(v, &val);
-                        let _ = story.get_variable(v);
-                    }
-                }
-                _ => {
-                    log("continue_maximally".into());
-                    let mut n = 0;
-                    while story.can_continue() && n < 50 {
-                        n += 1;
-                        if story.cont().is_err() {
-                            break;
-                        }
-                    }
-                }
-            }
-        }
+        let mut story = Story::new(&json).unwrap();
+        let played = play_to_end(&mut story);
+        let saved = story.save_state().map(|_| ()).map_err(|e| e.to_string());
+        (played, saved)
     }));
-    match r {
-        Ok(()) => Ok(()),
-        Err(e) => Err((panic_msg(e), trace)),
+    assert!(
+        r.is_ok(),
+        "save_state panicked: {}",
+        panic_msg(r.err().unwrap())
+    );
+}
+
+/// Same defect reached from the host through a path jump.
+#[test]
+fn save_after_path_jump_past_end_of_container_panics() {
+    let json = compile("hello\n-> END\n");
+    let r = catch_unwind(AssertUnwindSafe(|| {
+        let mut story = Story::new(&json).unwrap();
+        let jumped = story
+            .choose_path_string("0.99", true, None)
+            .map_err(|e| e.to_string());
+        let played = play_to_end(&mut story);
+        let saved = story.save_state().map(|_| ()).map_err(|e| e.to_string());
+        (jumped, played, saved)
+    }));
+    assert!(
+        r.is_ok(),
+        "save_state panicked: {}",
+        panic_msg(r.err().unwrap())
+    );
+}
+
+// ---------------------------------------------------------------------------
+// 6. A call whose target does not exist is accepted by the compiler
+//    (`{nosuch()}`; also `{CHOICE_COUNT(): a|b}`, `{TURNS(): a|b}`,
+//    `* {CHOICE_COUNT()} x`, `~ CHOICE_COUNT()`, and `fn(x)` where fn is a
+//    `-> fn` parameter: all compiled to a static {"f()": "<name>"}).
+//    `Divert::get_target_pointer` does not report the unresolvable path: the
+//    approximate search result is the root container, so the "function"
+//    that is called is the whole story, which calls itself again, and so on.
+//    `cont()` never returns and the call stack grows (about 30 MB/s in a
+//    debug build) until the process is killed. The fault is never reported.
+//    runtime/src/divert.rs:96-123 (+ compiler/src/emitter/conditional.rs:9,
+//    compiler/src/emitter/expression.rs:392, no check in the validator)
+//
+//    The story is played in a child process so that the test can fail
+//    instead of hanging.
+// ---------------------------------------------------------------------------
+fn run_in_child_with_timeout(test_name: &str, secs: u64) -> Option<std::process::ExitStatus> {
+    let exe = std::env::current_exe().unwrap();
+    let mut child = std::process::Command::new(exe)
+        .args([test_name, "--exact", "--nocapture", "--test-threads=1"])
+        .env("HUNT_CHILD", test_name)
+        .stdout(std::process::Stdio::null())
+        .stderr(std::process::Stdio::null())
+        .spawn()
+        .unwrap();
+    let start = std::time::Instant::now();
+    loop {
+        if let Some(status) = child.try_wait().unwrap() {
+            return Some(status);
+        }
+        if start.elapsed().as_secs() >= secs {
+            child.kill().unwrap();
+            child.wait().unwrap();
+            return None;
+        }
+        std::thread::sleep(std::time::Duration::from_millis(50));
     }
 }
 
-static CURRENT: std::sync::Mutex<(String, Option<std::time::Instant>)> = std::sync::Mutex::new((String::new(), None));
+fn hang_case(test_name: &str, ink: &str) {
+    let json = compile(ink);
+    if std::env::var("HUNT_CHILD").as_deref() == Ok(test_name) {
+        // child: an Err from cont() is fine, a panic is not, never coming back is not
+        let mut story = Story::new(&json).unwrap();
+        let _ = play_to_end(&mut story);
+        return;
+    }
+    match run_in_child_with_timeout(test_name, 5) {
+        Some(status) => assert!(status.success(), "child failed: {status:?}"),
+        None => panic!(
+            "cont() did not return within 5 s: the story re-enters its root container forever \
+             instead of reporting the unresolvable call target"
+        ),
+    }
+}
 
 #[test]
-fn fuzz_hosts() {
-    let wild = std::env::var("HUNT_WILD").is_ok();
-    let seeds: u64 = std::env::var("HUNT_SEEDS").ok().and_then(|s| s.parse().ok()).unwrap_or(30);
-    let dir = std::env::var("HUNT_CORPUS").unwrap_or(format!("{}/inkfiles", env!("CARGO_MANIFEST_DIR")));
-    let mut inks = vec![];
-    collect_inks(std::path::Path::new(&dir), &mut inks);
-    inks.sort();
-    std::panic::set_hook(Box::new(|_| {}));
-    let skip: Vec<String> = std::env::var("HUNT_SKIP").map(|s| s.split(',').filter(|x| !x.is_empty()).map(|x| x.to_string()).collect()).unwrap_or_default();
-    std::thread::spawn(|| loop {
-        std::thread::sleep(std::time::Duration::from_secs(1));
-        let g = CURRENT.lock().unwrap();
-        if g.1.is_some_and(|t| t.elapsed().as_secs() > 10) {
-            println!("HANG {}", g.0);
-            std::process::exit(3);
-        }
-    });
-    let first_seed: u64 = std::env::var("HUNT_FIRST").ok().and_then(|s| s.parse().ok()).unwrap_or(0);
-    let mut seen = std::collections::HashSet::new();
-    for p in inks {
-        if p.to_string_lossy().contains("/include/") { continue; }
-        let ink = std::fs::read_to_string(&p).unwrap();
-        let Ok(Ok(json)) = catch_unwind(|| Compiler::new().compile(&ink)) else { continue };
-        let (paths, vars) = names_in(&ink);
-        for seed in first_seed..seeds {
-            if skip.iter().any(|s| p.to_string_lossy().contains(s.as_str())) { continue; }
-            *CURRENT.lock().unwrap() = (format!("{} seed={seed}", p.display()), Some(std::time::Instant::now()));
-            if let Err((msg, trace)) = fuzz_one(&json, &paths, &vars, seed, wild) {
-                if seen.insert(msg.clone()) {
-                    println!("PANIC {} seed={seed}: {msg}\n   trace: {:?}", p.display(), trace);
-                }
-            }
-        }
-    }
+fn call_to_undefined_function_never_returns() {
+    hang_case(
+        "call_to_undefined_function_never_returns",
+        "{nosuch()}\n-> END\n",
+    );
+}
+
+#[test]
+fn choice_count_as_condition_never_returns() {
+    hang_case(
+        "choice_count_as_condition_never_returns",
+        "{CHOICE_COUNT(): yes|no}\n-> END\n",
+    );
+}
+
+// ---------------------------------------------------------------------------
+// Extra (host call with a path that leads to a non-container):
+// `tags_for_content_at_path("k.0")` unwraps `SearchResult::container()`.
+// runtime/src/story/tags.rs:34
+// ---------------------------------------------------------------------------
+#[test]
+fn tags_for_content_at_non_container_path_panics() {
+    let json = compile("-> k\n=== k\nhi\n-> DONE\n");
+    let r = catch_unwind(AssertUnwindSafe(|| {
+        let story = Story::new(&json).unwrap();
+        story
+            .tags_for_content_at_path("k.0")
+            .map_err(|e| e.to_string())
+    }));
+    assert!(
+        r.is_ok(),
+        "tags_for_content_at_path panicked: {}",
+        panic_msg(r.err().unwrap())
+    );
 }
